@@ -85,6 +85,9 @@ enum Rewrite {
     /// holds at `<hash>.z.example.` and signs with its own key: validly signed records that do
     /// not belong to the zone the response speaks for
     ChildZoneProof(u8),
+    /// C08: NXDOMAIN (0) / NODATA (1) claim resting on a *forged, unsigned* NSEC record owned by
+    /// the apex (next name = apex, so it spans the whole zone) next to the genuine signed SOA
+    ForgedApexNsec(u8),
 }
 
 #[derive(Serialize, Deserialize, Clone, Debug)]
@@ -483,7 +486,7 @@ fn gen_rewrite(r: &mut Rng, nsec3: bool) -> Rewrite {
             if nsec3 {
                 Rewrite::FlipRcode
             } else {
-                Rewrite::RelabelWildcardDenial(r.below(4) as u8)
+                if r.chance(1, 2) { Rewrite::RelabelWildcardDenial(r.below(4) as u8) } else { Rewrite::ForgedApexNsec(r.below(2) as u8) }
             }
         }
         _ => {
@@ -676,6 +679,7 @@ fn rewrite_code(r: Rewrite) -> u64 {
         Rewrite::PredecessorProof => 9,
         Rewrite::RelabelWildcardDenial(_) => 10,
         Rewrite::ChildZoneProof(_) => 11,
+        Rewrite::ForgedApexNsec(_) => 12,
     }
 }
 
@@ -829,6 +833,20 @@ async fn scenario(p: Plan) {
                                 m.authorities.push(r);
                             }
                         }
+                    }
+                    Rewrite::ForgedApexNsec(kind) => {
+                        use hickory_proto::dnssec::rdata::NSEC;
+                        let apex = Name::from_ascii("example.").unwrap();
+                        m.answers.clear();
+                        m.authorities.retain(|r| !is_denial(r));
+                        if !m.authorities.iter().any(|r| r.record_type() == RecordType::SOA) {
+                            m.authorities.extend(soa_set.iter().cloned());
+                        }
+                        let (owner, next) = if kind == 0 { (apex.clone(), apex.clone()) } else { (victim2.name.clone(), apex.clone()) };
+                        // NXDOMAIN: the apex NSEC "covers" everything; NODATA: an NSEC at the victim without its type
+                        let forged = NSEC::new(next, [RecordType::NS, RecordType::SOA, RecordType::RRSIG, RecordType::NSEC, RecordType::DNSKEY]);
+                        m.authorities.push(Record::from_rdata(owner, 60, RData::DNSSEC(DNSSECRData::NSEC(forged))));
+                        m.metadata.response_code = if kind == 0 { ResponseCode::NXDomain } else { ResponseCode::NoError };
                     }
                     Rewrite::ChildZoneProof(kind) => {
                         if !child_sets.is_empty() {
